@@ -331,6 +331,23 @@ def gen_grammar(seed, big):
     return out
 
 
+def attr_variants(kind, rnd, multiline=False):
+    """opening-tag attribute lists with the same decision: the first `to` / `name` attribute decides, quotes of either kind,
+    values with the other quote or a trailing backslash, unrelated attributes before / behind, `skip` anywhere"""
+    V = {
+        'tl_past': [[f"to='{PAST}'"], [f'to="{PAST}"'], [f"to='{PAST}'", f"to='{FUTURE}'"], ["x='1'", f"to='{PAST}'"], [f"to='{PAST}'", "note='skip it'"],
+                    [f"to='{PAST}'", 'c="a\\"', "d='x'"], [f"to='{PAST}'", 'to'], ["c='it\"s'", f"to='{PAST}'"]],
+        'tl_future': [[f"to='{FUTURE}'"], [f"to='{FUTURE}'", f"to='{PAST}'"], ['to', f"to='{PAST}'"], ['to=2000-01-01', f"to='{PAST}'"], ["to=''"], [f"from='{PAST}'"]],
+        'rm_hit': [["name='f1'"], ['name="f1"'], ["name='f1'", "name='zz'"], ["y='name'", "name='f1'"], ["name='f1'", 'note="don\'t skip"'], ["name='f1'", "c='a\\'", "d='x'"]],
+        'rm_miss': [["name='zz'"], ["name='zz'", "name='f1'"], ['name', "name='f1'"], ['name=f1', "name='f1'"], ["name='F1'"], ["name='f1 '"], ["nam='f1'"]],
+        'skip': [["name='f1'", 'skip'], ['skip', "name='f1'"], ["name='f1'", "skip='no'"], ["name='f1'", "c='x'", 'skip']],
+        'unreg': [["name='f1'"], [f"to='{PAST}'"]],
+    }
+    attrs = rnd.choice(V[kind])
+    sep = rnd.choice([' ', ' ', '  ', '\n  ', '\n']) if multiline else rnd.choice([' ', ' ', '  '])
+    return sep.join(attrs)
+
+
 def gen_blocks(seed, big):
     """C02/C03/C11: block documents from a small AST; the non-blank lines of the output are exactly the lines that
     survive by the property statements (default strategy: whole element; unwrap: two tag lines + two wrapper lines)"""
@@ -343,9 +360,8 @@ def gen_blocks(seed, big):
     def elem(depth, ind):
         kind = rnd.choice(['tl_past', 'tl_future', 'rm_hit', 'rm_miss', 'skip', 'unreg'])
         unwrap = rnd.random() < 0.35
-        tag, attrs, ready = {
-            'tl_past': (TL, f"to='{PAST}'", True), 'tl_future': (TL, f"to='{FUTURE}'", False), 'rm_hit': (RM, "name='f1'", True),
-            'rm_miss': (RM, "name='zz'", False), 'skip': (RM, "name='f1' skip", False), 'unreg': ('other', "name='f1'", False)}[kind]
+        tag, ready = {'tl_past': (TL, True), 'tl_future': (TL, False), 'rm_hit': (RM, True), 'rm_miss': (RM, False), 'skip': (RM, False), 'unreg': ('other', False)}[kind]
+        attrs = attr_variants(kind, rnd, multiline=ready)
         body = []   # list of (text_line, survives_if_parent_alive)
         nbody = rnd.randint(2, 4) if unwrap else rnd.randint(0, 3)
         inner = []
@@ -453,7 +469,8 @@ def gen_inline(seed, big):
             pre = rnd.choice(words) + rnd.choice(blanks)
             parts.append(pre); keep.append(pre)
             ready = rnd.random() < 0.6
-            tag, attrs = rnd.choice([(TL, f"to='{PAST}'"), (RM, "name='f1'")]) if ready else rnd.choice([(TL, f"to='{FUTURE}'"), (RM, "name='zz'"), (RM, "name='f1' skip")])
+            kind_ = rnd.choice(['tl_past', 'rm_hit']) if ready else rnd.choice(['tl_future', 'rm_miss', 'skip'])
+            tag, attrs = (TL if kind_.startswith('tl') else RM), attr_variants(kind_, rnd, multiline=True)
             body = rnd.choice(blanks) + rnd.choice(words) + rnd.choice(blanks)
             el = f"{ds}{tag} {attrs}{de}{body}{ds}/{tag}{de}"
             parts.append(el)
@@ -486,7 +503,10 @@ def gen_inline(seed, big):
                     if keep[i] == x:
                         del keep[i]; break
         src = ''.join(parts)
-        if rnd.random() < 0.25:
+        import re as _re2
+        if rnd.random() < 0.25 and not _re2.search(_re2.escape(ds) + r'[^\n]*\n[^\n]*?' + _re2.escape(de), src.replace(de + '\n', de + ' ')):
+            # CRLF text - but not when a tag is spread over several lines: inside a tag only ' ' and LF separate
+            # attributes, a CR would become part of an attribute name
             src = src.replace('\n', '\r\n')
         exp = strip_ws(''.join(keep))
         if any(d in exp.replace(ds + TL, '').replace(ds + RM, '').replace(ds + '/', '') for d in ()):
